@@ -268,6 +268,28 @@ def run(ctx):
                         "senders.%s(i) inside a loop over the recorded positions: after the first removal every later element has moved down by one, so the second removal drops a healthy consumer (it sees a bare EOF, never `unlinked`) and a failed one stays" % c.name)
             r.check(bool(positional), "clear_failed/removes-exactly-the-marked-positions", where(cf_b), "removal by position", "clear_failed neither retains by position nor removes by position: failed senders stay registered")
 
+    with ctx.rule("C07.R12", "T6", "a `synced` from the lane promotes only consumers that have seen the whole reply (multi-frame state)", floor=2) as r:
+        # For a value downlink the read task keeps the whole state (`current`) and hands it over with `synced` (sync_current). For multi-frame state
+        # (map) it keeps nothing: a consumer is complete only if it was waiting in awaiting_synced before the first event of the reply that this
+        # `synced` closes. The lane answers every Sync with its own reply, so a consumer that attaches in the middle of reply #1 must wait for the
+        # `synced` of reply #2. That needs *some* bookkeeping that tells such a consumer apart: a test in the Synced arm on state written when a
+        # consumer attaches, or a per-consumer test in sync_only. A Synced arm that drains the whole vector unconditionally promotes the late joiner
+        # with an incomplete map.
+        c_so = [c for c in rd.calls if c.name == "sync_only" and c.is_fn("downlink::sync_only")]
+        if len(c_so) != 1:
+            raise AnchorMissing("read_task: expected one sync_only call, found %d" % len(c_so))
+        arm_tests = [(d, l) for d, l, _ in dom_guards(rd, c_so[0].block) if not d.startswith("disc(") and "SINGLE_FRAME_STATE" not in d and d != "sync_event" and not re.match(r"^_\d+\.1$", d) and d != "is_active"]
+        pushes = [c for v, c, gb in _pushes(so) if v == "registered"]
+        if len(pushes) != 1:
+            raise AnchorMissing("sync_only: expected one push into registered, found %d" % len(pushes))
+        per_consumer = [(d, l) for d, l, _ in dom_guards(so, pushes[0].block) if not d.startswith("is_ok(") and not d.startswith("is_err(") and not d.startswith("disc(next(") and not d.startswith("disc(poll(")]
+        r.check(bool(arm_tests) or bool(per_consumer), "Synced/sync_only/promotes-only-consumers-that-saw-the-whole-reply", c_so[0].loc(),
+                "the promotion depends on bookkeeping that tells a consumer which attached in the middle of a reply apart (%s)" % (arm_tests + per_consumer)[:2],
+                "every `synced` promotes every consumer in awaiting_synced: a consumer that attached after part of the reply to an earlier Sync was dispatched is told `synced` with an incomplete map "
+                "(B syncs; lane sends update(1); C attaches; lane sends update(2), synced: C gets linked, update(2), synced - key 1 only arrives later as an ordinary event of the reply to C's own Sync)")
+        dr = [c for c in so.calls if c.name == "drain" and "RangeFull" in describe_operand(so, c.args[1])]
+        r.check(len(dr) == 1, "sync_only/analysed", where(so), "sync_only drains awaiting_synced (%d drain)" % len(dr))
+
     with ctx.rule("C07.R2c", "T6", "the read task takes a waiting new consumer before the remote's next message", floor=4) as r:
         # attach_task passes a consumer to the read task before the write task, so it is queued here before the sync request for it can
         # be sent; the reply must not overtake it: every select over (consumer_stream, messages) is biased, consumers first
@@ -447,6 +469,18 @@ def run(ctx):
                 od = describe_operand(wt, x.args[1])
                 r.check(od.endswith(".1") and ("new(" + od[:-2] + ".0,") in recv, "write_task/registration#%d/set_needs_sync(options)" % k_, x.loc(), "NEEDS_SYNC is derived from the options that came with this consumer (%s)" % od[-40:],
                         "set_needs_sync is given `%s`, not the options of the consumer being registered" % od[:60])
+        # a remembered sync request is only forgotten by sending it: every task_state.remove(.. NEEDS_SYNC ..) is followed by a Sync write on every path
+        # (a consumer may close its command half and keep reading: `no command readers` does not mean `nobody waits for synced`)
+        rems = [c for c in wt.calls if c.name == "remove" and describe_operand(wt, c.args[0]) == "task_state" and
+                (lambda v: v.isdigit() and int(v) & NEEDS)(describe_operand(wt, c.args[1]).replace("bitor(1, 2)", "3").replace("bitor(2, 1)", "3"))]
+        if not rems:
+            raise AnchorMissing("write_task: no site clears NEEDS_SYNC")
+        syncs = {s_.block for s_ in sus if wkind(s_) == "Sync"}
+        for k_, c in enumerate(sorted(rems, key=lambda x: x.block)):
+            ok = any(wt.dominates(c.block, b_) for b_ in syncs) and wt.must_pass(wt.succ[c.block], syncs, targets=set(wt.exits()) | {0})[0] if syncs else False
+            dominated = any(wt.dominates(c.block, b_) for b_ in syncs)
+            r.check(dominated, "write_task/NEEDS_SYNC-cleared#%d/only-by-sending-the-sync" % k_, c.loc(), "NEEDS_SYNC is cleared where the Sync write is scheduled",
+                    "NEEDS_SYNC is cleared without a Sync being written (guards: %s): a consumer that asked for SYNC while a write was pending, and has closed its command half, never gets `synced`" % [(d[:40], l) for d, l, _ in dom_guards(wt, c.block)][-2:])
         sb = rt.fn(name="set_needs_sync", self_adt="downlink::WriteTaskState")
         ctx.saw(sb)
         ct = [c for c in sb.calls if c.name == "contains"]
